@@ -202,6 +202,7 @@ func acctBarrier(env *core.Env, s *sut.SUT) {
 	}
 	// the ledger
 	openAccepted, openDialed := 0, 0
+	var deadDialed []string // dialled sockets the proxy still holds although the far side closed or reset them
 	for _, ep := range env.Net.Endpoints() {
 		st := ep.State()
 		if st.Closed {
@@ -212,6 +213,9 @@ func acctBarrier(env *core.Env, s *sut.SUT) {
 		}
 		if st.Dialer && strings.HasPrefix(st.Local, env.Net.IPOf(s.Node)+":") {
 			openDialed++
+			if st.EOF || st.Reset {
+				deadDialed = append(deadDialed, st.ID)
+			}
 		}
 	}
 	dialRecords := 0
@@ -244,6 +248,11 @@ func acctBarrier(env *core.Env, s *sut.SUT) {
 	}
 	if got := sum("forwarder_dialer_cx_active"); int(got) != openDialed {
 		env.Fail("acct-dialer-active", feature, "dialer_cx_active (all hosts) = %v, but %d dialled sockets are still open on the proxy side", got, openDialed)
+	}
+	if openAccepted == 0 && len(deadDialed) > 0 {
+		// every client is gone, minutes have passed, idle upstream connections were closed: a connection whose far side
+		// is gone must have been closed (and counted as closed) by now
+		env.Fail("acct-dialed-connection-never-closed", feature, "no client connection is open, yet the proxy still holds dialled sockets whose far side closed or reset long ago: %v (dialer_cx_active = %v)", deadDialed, sum("forwarder_dialer_cx_active"))
 	}
 	if got := sum("forwarder_dialer_cx_total") + sum("forwarder_dialer_retries_total") + sum("forwarder_dialer_errors_total"); int(got) != dialRecords {
 		env.Fail("acct-dialer-total", feature, "dialer_cx_total + dialer_retries_total + dialer_errors_total = %v, the network saw %d connection attempts from the proxy", got, dialRecords)
